@@ -277,7 +277,16 @@ def conclude(a, cfg, tier, seed, results, native, t0):
         if c is not None and c.model_to_inputs is not None and c.native is not None and v.get("model"):
             try:
                 inputs = c.model_to_inputs(v["model"])
-                nat = run_native(["replay", c.native[0], json.dumps(inputs), c.native[1]])
+                nmod, nfn = c.native
+                sel = getattr(c, "replay_select", None)
+                if sel is not None:
+                    # some clauses of a contract are replayed by another driver (e.g. the conditional-request clauses of the
+                    # static-file applications: a fixed family of validator forms on a real file, not the model's path)
+                    alt = sel(v["name"], v["model"])
+                    if alt is not None:
+                        (nmod, nfn), inputs = alt
+                v["native_fn"] = [nmod, nfn]
+                nat = run_native(["replay", nmod, json.dumps(inputs), nfn])
                 v["inputs"] = inputs
                 v["native"] = nat
                 v["replayed"] = bool(nat.get("violated"))
@@ -377,7 +386,7 @@ def conclude(a, cfg, tier, seed, results, native, t0):
         n += 1
         path = write_replay(n, {"property": prop, "source": "solver counterexample (%s mode), replayed on the real code" % v["mode"],
                                 "obligation": v["name"], "contract": v["contract"], "clause": v["note"],
-                                "inputs": v["inputs"], "native_module": reg.by_id[v["contract"]].native,
+                                "inputs": v["inputs"], "native_module": v.get("native_fn") or reg.by_id[v["contract"]].native,
                                 "native_outcome": v["native"], "solver_output": v["solver"], "model": v["model"]})
         lines.append("VIOLATION property=%s replay=%s" % (prop, path))
         if n >= 3:
